@@ -101,13 +101,13 @@ class Disconnection:
       if isinstance(ref, gfapy.Line):
         self._set_existing_field(k, ref.name, set_reference = True)
       elif isinstance(ref, gfapy.OrientedLine):
-        ref.line = ref.name
+        ref._set_line(ref.name)
       elif isinstance(ref, list):
         for i, elem in enumerate(ref):
           if isinstance(elem, gfapy.Line):
             ref[i] = elem.name
           elif isinstance(elem, gfapy.OrientedLine):
-            ref[i].line = elem.name
+            ref[i]._set_line(elem.name)
 
   def _remove_backreference(self, ref, k):
     if isinstance(ref, gfapy.Line):
